@@ -8,7 +8,7 @@ package database
 // The deductive check proves the visibility guards function by function; equivalence over
 // operation histories needs the contents of the storage libraries (bbolt buckets, files, maps),
 // which are out of its reach. This test runs every operation sequence up to a length bound through
-// the real Interface on the hashmap, bbolt and fstree backends, with and without shadow delete,
+// the real Interface on the hashmap, bbolt, fstree and badger backends, with and without shadow delete,
 // with and without a read cache, and compares after every step what Get / Exists / Query return
 // with a reference map. Keys are prefix-free at path-segment boundaries (as the property demands
 // for the file tree). Injected with go test -overlay by /verif/bin/govc.
@@ -30,6 +30,7 @@ import (
 type c02ref struct {
 	score   int
 	visible bool
+	expires int64 // absolute expiry stored with the record (0: none)
 }
 
 type c02op struct {
@@ -49,7 +50,7 @@ func c02ops() []c02op {
 			if err := db.Put(r); err != nil {
 				return err
 			}
-			ref[k] = &c02ref{step, true}
+			ref[k] = &c02ref{score: step, visible: true}
 			return nil
 		}})
 		ops = append(ops, c02op{"PutNew(" + k + ")", func(db *Interface, dbName, ns string, ref map[string]*c02ref, step int) error {
@@ -58,7 +59,7 @@ func c02ops() []c02op {
 			if err := db.PutNew(r); err != nil {
 				return err
 			}
-			ref[k] = &c02ref{step + 100, true}
+			ref[k] = &c02ref{score: step + 100, visible: true}
 			return nil
 		}})
 		ops = append(ops, c02op{"Delete(" + k + ")", func(db *Interface, dbName, ns string, ref map[string]*c02ref, step int) error {
@@ -81,7 +82,7 @@ func c02ops() []c02op {
 			if err := db.Put(r); err != nil {
 				return err
 			}
-			ref[k] = &c02ref{step, false}
+			ref[k] = &c02ref{score: step, visible: false}
 			return nil
 		}})
 		ops = append(ops, c02op{"ExpireInPast(" + k + ")", func(db *Interface, dbName, ns string, ref map[string]*c02ref, step int) error {
@@ -97,11 +98,13 @@ func c02ops() []c02op {
 			return nil
 		}})
 		ops = append(ops, c02op{"ExpireInFuture(" + k + ")", func(db *Interface, dbName, ns string, ref map[string]*c02ref, step int) error {
-			err := db.SetAbsoluteExpiry(dbName+":"+ns+k, time.Now().Unix()+3600)
+			at := time.Now().Unix() + 3600 + int64(step)
+			err := db.SetAbsoluteExpiry(dbName+":"+ns+k, at)
 			if e, ok := ref[k]; ok && e.visible {
 				if err != nil {
 					return fmt.Errorf("setting the expiry of a visible record fails: %w", err)
 				}
+				e.expires = at
 			} else if err == nil {
 				return errors.New("setting the expiry of a record that is not visible reports success")
 			}
@@ -136,8 +139,8 @@ func c02ops() []c02op {
 			if err != nil {
 				return err
 			}
-			ref["x/a"] = &c02ref{step + 200, true}
-			ref["z"] = &c02ref{step + 201, true}
+			ref["x/a"] = &c02ref{score: step + 200, visible: true}
+			ref["z"] = &c02ref{score: step + 201, visible: true}
 			return nil
 		case <-time.After(5 * time.Second):
 			return errors.New("the batch put does not return (waited 5s)")
@@ -196,6 +199,9 @@ func c02observe(db *Interface, dbName, ns string, ref map[string]*c02ref) string
 			}
 			if ex.Score != e.score {
 				return fmt.Sprintf("Get(%s): score %d, want %d (the data most recently stored)", k, ex.Score, e.score)
+			}
+			if m := r.Meta(); m == nil || m.Expires != e.expires {
+				return fmt.Sprintf("Get(%s): metadata %+v, want expiry %d (the metadata most recently stored)", k, m, e.expires)
 			}
 		}
 		exists, err := db.Exists(dbName + ":" + ns + k)
@@ -262,7 +268,7 @@ func TestBoundedC02RefMap(t *testing.T) {
 		depth   int // exhaustive sequence length
 	}
 	var cfgs []cfg
-	for _, st := range []string{"hashmap", "bbolt", "fstree"} {
+	for _, st := range []string{"hashmap", "bbolt", "fstree", "badger"} {
 		for _, sh := range []bool{false, true} {
 			for _, ca := range []int{0, 64} {
 				d := 2
@@ -355,7 +361,7 @@ func TestBoundedC02RefMap(t *testing.T) {
 		}
 		_ = ci
 	}
-	fmt.Printf("BOUNDED name=C02/reference-map cases=%d distinct=%d bound=every sequence of up to 2 operations (3 on one hashmap configuration in the thorough tier; there, and on bbolt and fstree, the first operation only on one key) out of %d operation instances (put, put-new, delete, put of an expired record, expiry in the past, expiry in the future on 5 keys sharing prefixes and path separators; batch put of two records; purge of a key prefix; record-state maintenance; maintenance) plus %d longer sequences (re-put after delete and maintenance, expiry then maintenance, double delete), on hashmap, bbolt and fstree x shadow delete on/off x read cache off/on; after every step Get and Exists of all keys and 32 queries (8 key prefixes incl. non-boundary prefixes x no condition / integer condition / string condition / string operator on a number field) are compared with a reference map\n",
+	fmt.Printf("BOUNDED name=C02/reference-map cases=%d distinct=%d bound=every sequence of up to 2 operations (3 on one hashmap configuration in the thorough tier; there, and on bbolt, fstree and badger, the first operation only on one key) out of %d operation instances (put, put-new, delete, put of an expired record, expiry in the past, expiry in the future on 5 keys sharing prefixes and path separators; batch put of two records; purge of a key prefix; record-state maintenance; maintenance) plus %d longer sequences (re-put after delete and maintenance, expiry then maintenance, double delete), on hashmap, bbolt, fstree and badger x shadow delete on/off x read cache off/on; after every step Get and Exists of all keys and 32 queries (8 key prefixes incl. non-boundary prefixes x no condition / integer condition / string condition / string operator on a number field) are compared with a reference map\n",
 		cases, cases, len(ops), len(extra))
 	if fails > 0 {
 		t.Fatalf("%d of %d sequences differ from the reference map", fails, cases)
